@@ -157,3 +157,24 @@ Section Replace.
     apply seq_point. intros d H. apply RDI_of. exact H.
   Qed.
 End Replace.
+
+(* ---- effects on the scratch files only ---- *)
+Definition is_scratch (e : eff) : bool :=
+  match e with
+  | FCreateLog (TScr _ _) | FCreateIdx (TScr _ _) | FAppendLog (TScr _ _) _ | FAppendIdx (TScr _ _) _
+  | FRemoveLog (TScr _ _) | FRemoveIdx (TScr _ _) | FPoint _ => true
+  | _ => false
+  end.
+
+Lemma scratch_meq d e : is_scratch e = true -> meq (apply_eff d e) d.
+Proof.
+  destruct e as [[b|b s]|[b|b s]|[b|b s] rs|[b|b s] rs|[b|b s]|[b|b s]|b s|b s|h|c|pn]; cbn [is_scratch]; try discriminate; intros _;
+    cbn [apply_eff]; try apply scr_apply_meq; apply meq_refl.
+Qed.
+
+Lemma seq_scratch (R : disk -> Prop) D es : main_pred R -> R D -> forallb is_scratch es = true -> seq R (at_ D) es (at_ D).
+Proof.
+  intros HR RD Hall. apply seq_each.
+  - intros d Hd. apply (HR D d); [apply meq_sym; exact Hd|exact RD].
+  - intros e He d Hd. rewrite forallb_forall in Hall. eapply meq_trans; [apply scratch_meq; apply Hall; exact He|exact Hd].
+Qed.
